@@ -165,6 +165,40 @@ def check(ctx):
         ok = any(isinstance(c.func, ast.Attribute) and c.func.attr == name and "to_list_of_dicts()" in norm(c.func.value) for _, c in calls_in(fn))
         ctx.ob("TNT-tolist", fn, f"{name} delegates to to_list_of_dicts().{name}", fn.node, ok,
                "JSON export goes through the None-converting exporter" if ok else f"{name} no longer goes through to_list_of_dicts()", nontrivial=False)
+    # the JSON exporters do not switch the encoder to strict mode on their own: with allow_nan=False json.dumps REFUSES
+    # +-inf, which are ordinary float values the statement says cross the boundary
+    for q in (f"{DF}.to_json", f"{DF}.write_json", "dataiter.list_of_dicts.ListOfDicts.to_json", "dataiter.list_of_dicts.ListOfDicts.write_json"):
+        fnj = repo.functions.get(q)
+        if fnj is None:
+            continue
+        for node in body_nodes(fnj.node):
+            hit = None
+            if isinstance(node, ast.Call):
+                for k in node.keywords:
+                    if k.arg == "allow_nan" and isinstance(k.value, ast.Constant) and k.value.value is False:
+                        hit = node
+                if isinstance(node.func, ast.Attribute) and node.func.attr == "setdefault" and len(node.args) == 2 \
+                        and isinstance(node.args[0], ast.Constant) and node.args[0].value == "allow_nan" \
+                        and isinstance(node.args[1], ast.Constant) and node.args[1].value is False:
+                    hit = node
+            elif isinstance(node, ast.Assign) and isinstance(node.targets[0], ast.Subscript) and isinstance(node.targets[0].slice, ast.Constant) \
+                    and node.targets[0].slice.value == "allow_nan" and isinstance(node.value, ast.Constant) and node.value.value is False:
+                hit = node
+            if hit is not None:
+                ctx.ob("TNT-tolist", fnj, norm(hit)[:60], hit, False,
+                       f"{norm(hit)[:50]} makes json.dumps raise ValueError for inf / -inf: a float column holding an infinity can no longer be "
+                       f"converted to JSON at all (missing values are None already and are not affected)",
+                       clause="Converting a non-empty data frame to ... JSON text ... and back yields ... the same values")
+    tc = repo.functions.get("dataiter.list_of_dicts.ListOfDicts._to_columns")
+    if tc is not None:
+        # the columns of the frame are the KEYS of the items, whatever their values: a key whose values are all None is a column
+        comps = [n for n in ast.walk(tc.node) if isinstance(n, (ast.GeneratorExp, ast.ListComp, ast.SetComp, ast.DictComp))]
+        valfilt = [(n, i) for n in comps for g in n.generators for i in g.ifs
+                   if any(isinstance(x, ast.Subscript) for x in ast.walk(i)) or ".get(" in norm(i) or ".values()" in norm(i)]
+        ctx.ob("TNT-tolist", tc, "keys -> columns, independent of the values", valfilt[0][0] if valfilt else tc.node, not valfilt,
+               "every key becomes a column" if not valfilt else
+               f"keys are kept only when {norm(valfilt[0][1])}: a key whose values are all missing is dropped, and the column order follows the "
+               f"first NON-missing value instead of the keys", clause="the same column names and order ... the same missing positions")
     vt = repo.fn(f"{VEC}.tolist")
     rets = [n for n in body_nodes(vt.node) if isinstance(n, ast.Return)]
     from ..forms import expand as _expand13
